@@ -162,6 +162,34 @@ func runC10(c *Ctx) {
 			}
 		}
 	}
+	// boundary frames: no data at all (header + file CRC; CheckIntegrity accepts
+	// them, Decode wants a file_id), in all header shapes, followed by a valid
+	// file that must still be found where the frame ends
+	for hv := 0; hv < 3; hv++ {
+		h := []byte{12, 0x10, 0x43, 0x08, 0, 0, 0, 0, '.', 'F', 'I', 'T'}
+		if hv > 0 {
+			h[0] = 14
+			hc := uint16(0)
+			if hv == 2 {
+				hc = crc16(h)
+			}
+			h = append(h, byte(hc), byte(hc>>8))
+		}
+		fc := crc16(h)
+		frame := append(append([]byte{}, h...), byte(fc), byte(fc>>8))
+		next := pool[hv%len(pool)]
+		trail := append(append([]byte{}, frame...), next...)
+		for j, ch := range chunkScripts {
+			rs := readScript{chunks: ch, cut: -1, fault: -1, withEOF: j%2 == 1}
+			for _, api := range []string{"integrity", "integrity_hdr", "header", "decode"} {
+				cl := run(api, trail, rs, fmt.Sprintf("frame without data (header shape %d) + a valid file, chunks %v", hv, ch))
+				members[cl.ID] = [][]byte{frame}
+				if api == "integrity" && cl.Ret.Err == 0 && cl.Ret.Consumed != len(frame) {
+					c.report("consumed", fmt.Sprintf("CheckIntegrity consumed %d bytes of a %d-byte frame without data", cl.Ret.Consumed, len(frame)), cl)
+				}
+			}
+		}
+	}
 	// chains: ordered pairs and triples x chunk scripts
 	nchains := c.pick(40, 500)
 	mismatchAlone := 0
